@@ -74,6 +74,10 @@ struct TermObs {
     addrs: [std::net::SocketAddr; 2],
     mad: Duration,
     cnt: BTreeMap<String, u64>,
+    /// the server endpoint was replaced at this instant: what node 1 builds from then on belongs to OTHER connections (a fresh
+    /// endpoint answers the client's retransmissions with a new handshake the client cannot authenticate)
+    /// (as the number of datagram records that existed then: the old connection's last datagrams carry the same instant)
+    server_replaced_at: Option<usize>,
 }
 
 fn ns(d: Duration) -> u64 {
@@ -204,6 +208,7 @@ pub fn term(seed: u64, out: &mut Outcome) {
         addrs: [sim.nodes[CLIENT].addr, sim.nodes[SERVER].addr],
         mad: Duration::from_millis(25),
         cnt: BTreeMap::new(),
+        server_replaced_at: None,
     }));
 
     // ---- what each side puts on the wire: idle-timer ledger (RFC 9000 10.1: first ack-eliciting packet after a receive)
@@ -237,7 +242,8 @@ pub fn term(seed: u64, out: &mut Outcome) {
         let Some((info, b)) = o.cur.take() else { return };
         let a = sim.snap(node, ch);
         let now = sim.now;
-        let rec = info.rec.map(|i| o.tx.recs[i].clone()).filter(|r| r.node != node);
+        let replaced = o.server_replaced_at;
+        let rec = info.rec.filter(|i| !(o.tx.recs[*i].node == SERVER && replaced.is_some_and(|k| *i >= k))).map(|i| o.tx.recs[i].clone()).filter(|r| r.node != node);
         let from_peer = info.from == o.addrs[1 - node];
         let mad = o.mad;
         if let (Some(r), true) = (rec.as_ref(), from_peer) {
@@ -420,6 +426,9 @@ pub fn term(seed: u64, out: &mut Outcome) {
                     true,
                 );
                 sim.nodes[SERVER].ep = fresh;
+                let mut ob = obs.borrow_mut();
+                ob.server_replaced_at = Some(ob.tx.recs.len());
+                drop(ob);
                 for c in sim.nodes[SERVER].conns.values_mut() {
                     c.removed = true;
                 }
@@ -577,6 +586,17 @@ pub fn term(seed: u64, out: &mut Outcome) {
         effective = 6;
     }
 
+    // which datagrams of the two connections did the network NOT deliver (loss, path MTU, a vanished sender)? A datagram
+    // the sender built whose bytes were never handed to an endpoint
+    let undelivered: Vec<(u64, usize)> = {
+        let mut seen = vec![false; o.tx.recs.len()];
+        for r in sim.route_log.as_ref().map(|v| v.as_slice()).unwrap_or(&[]) {
+            if let Some(i) = o.tx.lookup(&r.data) {
+                seen[i] = true;
+            }
+        }
+        o.tx.recs.iter().enumerate().filter(|(i, _)| !seen[*i]).map(|(_, r)| (r.at, r.node)).collect()
+    };
     // ---- oracles
     let kind_of = |l: &str| l.trim_start_matches("ConnectionLost(").split(|c| c == '(' || c == ')' || c == ' ').next().unwrap_or("").to_string();
     for node in 0..2 {
@@ -662,7 +682,10 @@ pub fn term(seed: u64, out: &mut Outcome) {
                         Some(_) => {}
                     }
                     // ... and what was on the wire is what the closer's application asked for
-                    if o.led[peer].local_close_at.is_some() || action == 13 {
+                    // (only for a close the PEER's application made: its own close(), or the hand-made packet of action 13 when the
+                    //  peer is the side that built it. The CONNECTION_CLOSE(NO_ERROR) a connection sends in reply to a peer's close,
+                    //  RFC 9000 10.2.2, in every space it still has keys for, is not an application close of that side)
+                    if o.led[peer].local_close_at.is_some() || (action == 13 && peer == hostile) {
                         if let Some(f) = data.as_ref().filter(|f| f.contains("Close(Application(")) {
                             let appl = format!("{:?}", Bytes::from(app.clone()));
                             let want_code = format!("error_code: {code},");
@@ -716,7 +739,18 @@ pub fn term(seed: u64, out: &mut Outcome) {
             // who keeps it alive? the last datagrams of both sides
             let tail: Vec<&crate::txobs::DgramRec> = o.tx.recs.iter().rev().take(40).collect();
             let ack_only = tail.len() == 40 && tail.iter().all(|r| r.pkts.iter().all(|p| p.types.iter().all(|t| matches!(*t, 0 | 2 | 3))));
-            if ack_only && is_open(&sn) {
+            // "a connection that keeps exchanging traffic never times out": is APPLICATION data still flowing? (a slow transfer:
+            // stream windows of 500 bytes over a long round trip last longer than the horizon.) New STREAM / DATAGRAM / CRYPTO
+            // data in a packet sent during the last two idle periods = the applications are not silent, nothing is demanded.
+            // Control frames alone (PING, MAX_DATA, ...) do not count: a connection kept alive only by them is reported.
+            let pto = l.ptos.iter().map(|(_, p)| *p).max().unwrap_or(0);
+            let period = (neg.unwrap_or(0) * 1_000_000).max(3 * pto);
+            let since = sim.now.saturating_sub(2 * period);
+            let app_traffic = l.left_open_at.is_none()
+                && o.tx.recs.iter().rev().take_while(|r| r.at >= since).any(|r| r.pkts.iter().any(|p| p.types.iter().any(|t| matches!(*t, 0x06 | 0x08..=0x0f | 0x30 | 0x31))));
+            if app_traffic && effective == 6 && is_open(&sn) {
+                out.count("still-transferring-at-the-horizon", 1);
+            } else if ack_only && is_open(&sn) {
                 sim.fail("idle-timeout-prevented-by-ack-of-ack", format!("node {node} conn {ch} still {} at t={} (action {action}: both applications silent, no keep-alive, negotiated idle timeout {neg:?} ms): the last 40 datagrams of the two endpoints carry nothing but ACK frames, each acknowledging the other's acknowledgement (RFC 9000 13.2.1: a non-ack-eliciting packet MUST NOT be answered with a non-ack-eliciting packet), so the idle timer is restarted for ever; network marks CE: {}", sn.state, sim.now, sim.net.ce));
             } else {
                 sim.fail("drain-never", format!("node {node} conn {ch} still {} at the end (action {action}, negotiated idle timeout {neg:?} ms, keep-alive {ka})", sn.state));
@@ -731,7 +765,20 @@ pub fn term(seed: u64, out: &mut Outcome) {
             if kind_of(first) == "TimedOut" {
                 let td = drained_at.unwrap_or(sim.now);
                 if ka != 0 && vanished.is_none() && effective == 6 && ka_ms < neg.unwrap_or(u64::MAX) {
-                    sim.fail("idle-timeout-despite-keep-alive", format!("node {node}: {first} at {td} although keep-alives (every {ka_ms} ms, sides {ka}) flow over a delivering path; negotiated idle timeout {neg:?} ms"));
+                    // "keeps exchanging keep-alives": the HARNESS establishes that the path delivered and the peer was there:
+                    // from the last peer packet this side was handed until its timeout (at least one idle period = four
+                    // keep-alive intervals) the network lost no datagram of either connection, in either direction, and the peer
+                    // was not drained before this side. Then every keep-alive due in that silence and every acknowledgement of
+                    // one arrived, and only a missing keep-alive explains the silence. (A timeout with peer packets HANDLED
+                    // inside the period is `idle-timeout-too-early`.)
+                    let from = l.l_max.unwrap_or(0);
+                    let lost_in_window = undelivered.iter().filter(|(t, _)| *t >= from && *t <= td).count();
+                    let peer_gone_first = w.ch[peer].and_then(|pch| sim.nodes[peer].conns[&pch].obs.drained_at).is_some_and(|t| t < td);
+                    if lost_in_window == 0 && !peer_gone_first {
+                        sim.fail("idle-timeout-despite-keep-alive", format!("node {node}: {first} at {td} although keep-alives (every {ka_ms} ms, sides {ka}) were due, the peer was alive and the network delivered every datagram of both connections sent in [{from}, {td}] (from the last peer packet it was handed to the timeout); negotiated idle timeout {neg:?} ms"));
+                    } else {
+                        out.count("keep-alive-timeouts-explained-by-loss-or-dead-peer", 1);
+                    }
                 }
                 match neg {
                     None => {
